@@ -51,6 +51,7 @@ def make_case(seed, i):
     if rng.chance(0.55):
         cfg.imports = rng.randint(1, 2)
     targets = [t for t in ("cpp", "python", "json", "matlab") if rng.chance(0.55)] or ["python"]
+    cfg.odd_namespaces = True
     pkg = M.gen_package(rng.next(), cfg, targets=targets)
     M.randomize_target_options(pkg, rng.fork("options"))
     has_versions = rng.chance(0.25)
@@ -87,11 +88,19 @@ def make_case(seed, i):
             mine = sorted(p for p in cur if p.startswith("/w/pkg/dir"))
             if mine and r.chance(0.5):
                 p = r.choice(mine)
-                if r.chance(0.5):
+                how = r.choice(["remove", "move_out", "save", "save"])
+                if how == "remove":
                     edits.append({"kind": "remove", "path": p})
                     edits.append({"kind": "remove", "path": p.rsplit("/", 1)[0]})
                     cur.pop(p)
                     log.append("remove sub-directory " + p.rsplit("/", 1)[0])
+                elif how == "move_out":
+                    # the whole sub-directory leaves the package in one rename (mv pkg/dirN ../attic/)
+                    d = p.rsplit("/", 1)[0]
+                    edits.append({"kind": "mkdir", "path": "/w/attic"})
+                    edits.append({"kind": "rename", "path": d, "to": "/w/attic/" + d.rsplit("/", 1)[1] + "_%d" % e})
+                    cur.pop(p)
+                    log.append("move sub-directory %s out of the package" % d)
                 else:
                     cur[p] = cur[p] + "    more%d: string\n" % e
                     edits.append({"kind": "write" if r.chance(0.5) else "atomic", "path": p, "data": cur[p], "steps": r.randint(1, 2)})
@@ -100,9 +109,17 @@ def make_case(seed, i):
                 d = "/w/pkg/dir%d" % e
                 p = d + "/more.yml"
                 cur[p] = "ZqDir%d: !record\n  fields:\n    first: int\n" % e
-                edits.append({"kind": "mkdir", "path": d})
-                edits.append({"kind": "write", "path": p, "data": cur[p], "steps": r.randint(1, 2)})
-                log.append("new sub-directory with " + p)
+                if r.chance(0.5):
+                    edits.append({"kind": "mkdir", "path": d})
+                    edits.append({"kind": "write", "path": p, "data": cur[p], "steps": r.randint(1, 2)})
+                    log.append("new sub-directory with " + p)
+                else:
+                    # prepared elsewhere and moved into the package in one rename: the only event is for the directory
+                    st = "/w/staging/dir%d" % e
+                    edits.append({"kind": "mkdir", "path": st})
+                    edits.append({"kind": "write", "path": st + "/more.yml", "data": cur[p], "steps": 1})
+                    edits.append({"kind": "rename", "path": st, "to": d})
+                    log.append("sub-directory %s moved into the package" % d)
             continue
         if kind == "replace_import_dir":
             # a referenced package directory is replaced by a fresh copy (git checkout, unpacking an archive): the new
